@@ -1,7 +1,7 @@
 \* exhaustive, thorough tier: every pair of archetypes of the full alphabet, a failing call anywhere
 CONSTANTS Pods = {"p1", "p2"}  Archetypes <- ArchAll  TGPs <- BoolBoth  TGP = 3
   MaxNow = 4  MaxFaults = 1  MaxRestarts = 0  MaxDlChanges = 0  MaxLen = 1000  MaxSpont = 99
-  EarlierMode = "earlier"  GateTiers = TRUE  MinGrace = 1  DndMode = "honour"  ThresholdSlack = 0  DropMode = "keep"
+  EarlierMode = "earlier"  GateTiers = TRUE  MinGrace = 1  DndMode = "honour"  ThresholdSlack = 0  DropMode = "keep"  SplitMode = "waiting"
 SPECIFICATION Spec
 VIEW view
 INVARIANTS TypeOK Inv_C10_Guards
